@@ -3,6 +3,7 @@ package main
 // Hash-consed SMT-LIB terms.
 
 import (
+	"os"
 	"fmt"
 	"math"
 	"math/big"
@@ -341,6 +342,13 @@ func Ite(c, a, b *Term) *Term {
 	if a == b {
 		return a
 	}
+	// a nested choice on the same condition is decided by the outer one
+	if a.Op == "ite" && a.Args[0] == c {
+		return Ite(c, a.Args[1], b)
+	}
+	if b.Op == "ite" && b.Args[0] == c {
+		return Ite(c, a, b.Args[2])
+	}
 	if a.S == SBool {
 		if a == True && b == False {
 			return c
@@ -364,6 +372,8 @@ func Ite(c, a, b *Term) *Term {
 	return mk("ite", a.S, c, a, b)
 }
 
+var pushSelIdx = os.Getenv("SCTPVC_NOPUSHSEL") == ""
+
 func Select(a, i *Term) *Term {
 	if a.S.K != KArr {
 		panic("select on non-array " + a.S.str)
@@ -386,9 +396,20 @@ func Select(a, i *Term) *Term {
 	if a.Op == "constarr" {
 		return a.Args[0]
 	}
-	if a.Op == "ite" && (a.Args[1].Op == "store" || a.Args[2].Op == "store" || a.Args[1].Op == "ite" || a.Args[2].Op == "ite") {
-		// push the read through a merge of heap versions so that read-over-write can fire
-		return Ite(a.Args[0], Select(a.Args[1], i), Select(a.Args[2], i))
+	if pushSelIdx && i.Op == "ite" && a.S.Elem.K == KArr {
+		// a read of the heap at a merged reference: one read per alternative, so that read-over-write can fire
+		return Ite(i.Args[0], Select(a, i.Args[1]), Select(a, i.Args[2]))
+	}
+	if a.Op == "ite" && (pushSelIdx || a.Args[1].Op == "store" || a.Args[2].Op == "store" || a.Args[1].Op == "ite" || a.Args[2].Op == "ite") {
+		// push the read through a merge of heap versions so that read-over-write can fire; the index is
+		// simplified under the condition of each alternative
+		c := a.Args[0]
+		it, ie := i, i
+		if pushSelIdx && containsTerm(i, c) {
+			it = Subst(i, map[*Term]*Term{c: True})
+			ie = Subst(i, map[*Term]*Term{c: False})
+		}
+		return Ite(c, Select(a.Args[1], it), Select(a.Args[2], ie))
 	}
 	return mk("select", a.S.Elem, a, i)
 }
